@@ -805,7 +805,9 @@ def galpha_trim(d, budget):
 # ---------------------------------------------------------------- spellings and byte-exact values (C02)
 HOSTILE = ["", "=", "a=b", "v%20w", "%20", "-x", "--", "%C3%B1", "%FF", "f%FF=", "1", "z" * 300]
 NAMESETS = [(["-n"], []), (["-%C3%B1"], []), ([], ["--name"]), ([], ["--n%C3%A4m%C3%A9"]),
-            (["-n"], ["--name"]), (["-%C3%B1"], ["--n%C3%A4m%C3%A9"]), (["-n", "-N"], ["--name", "--alias"])]
+            (["-n"], ["--name"]), (["-%C3%B1"], ["--n%C3%A4m%C3%A9"]), (["-n", "-N"], ["--name", "--alias"]),
+            # short names of three bytes (lead byte 0xE0, the boundary of the width table, and 0xE2) and of four
+            (["-%E0%B8%81"], []), (["-%E2%82%AC"], ["--%E0%B8%81%E0%B8%A5"]), (["-%F0%9F%98%80"], [])]
 
 
 def spell_family(seed, n, maxlen=2, budget=9000, vals=None):
